@@ -327,4 +327,11 @@ impl ReadGlobalIndex for GlobalIndex {}
 #[allow(missing_docs, unused_imports, dead_code, clippy::all, clippy::pedantic, clippy::nursery)]
 pub mod verif_hooks {
     use super::*;
+
+    pub use super::{GlobalIndex, IndexEntry, ReadGlobalIndex, ReadIndex};
+
+    /// the private `blob_type` field of an [`IndexEntry`]
+    pub fn entry_blob_type(e: &IndexEntry) -> BlobType {
+        e.blob_type
+    }
 }
